@@ -33,6 +33,9 @@ type histState struct {
 	prevBytes []byte        // what the file loads as before the running save (nil: nothing)
 	prevData  *session.Data // nil: no session
 	saveErr   error
+	// fst is the storage object of the running client process: created at a (re)start, used for the load at start and
+	// for every save until the next crash.
+	fst *session.FileStorage
 }
 
 func histStart(first *shape) *histState {
@@ -57,7 +60,10 @@ func histStart(first *shape) *histState {
 func (st *histState) save(sh shape) (newBytes []byte, newData *session.Data) {
 	newData = mkData(sh)
 	newBytes = encoded(newData)
-	st.saveErr = (&session.Loader{Storage: &session.FileStorage{Path: st.path}}).Save(context.Background(), newData)
+	if st.fst == nil {
+		st.fst = &session.FileStorage{Path: st.path}
+	}
+	st.saveErr = (&session.Loader{Storage: st.fst}).Save(context.Background(), newData)
 	if vos.Strays() != 0 {
 		infra("the storage touched a path outside the vos file system")
 	}
@@ -75,7 +81,8 @@ func (st *histState) crash(ch vos.Choice, newBytes []byte, newData *session.Data
 	st.fs.Unmount()
 	img.Mount()
 	st.fs = img
-	fst := &session.FileStorage{Path: st.path}
+	fst := &session.FileStorage{Path: st.path} // the restarted client
+	st.fst = fst
 	raw, rerr := fst.LoadSession(ctx)
 	switch {
 	case rerr == nil && bytes.Equal(raw, newBytes):
